@@ -23,7 +23,7 @@ UNARY = (
     [{"op": "deepcopy"}] * 3 +
     [{"op": "fill_all"}, {"op": "fill", "kv": [["b", 0]]}, {"op": "fill", "kv": [["x", -1]]},
      {"op": "select", "keys": ["a"]}, {"op": "select", "keys": ["a", "b"]}, {"op": "unselect", "keys": ["b"]},
-     {"op": "rename", "pairs": [["x", "b"]]}] +
+     {"op": "rename", "pairs": [["x", "b"]]}, {"op": "rename", "pairs": [["aa", "a"]]}, {"op": "rename", "pairs": [["aa", "a"]]}] +
     [{"op": "modify", "k": k, "g": g} for k in ("b", "x") for g in ({"f": "const", "v": 1}, {"f": "from", "k": "a"}, {"f": "const", "v": -1})] +
     [{"op": "modify_if", "p": p, "k": "b", "g": {"f": "const", "v": 0}} for p in ({"f": "a_eq", "v": 0}, {"f": "b_notnone"})]
 )
@@ -46,7 +46,8 @@ def do_call(lists, e):
         return x.extend(o) if op == "extend" else x + o
     if op in ("semi", "anti", "inner", "left"):
         o = lists[e["o"] - 1]
-        return getattr(x, op + "_join")(o, "a")
+        by = ("a", "aa") if a.get("ren") else "a"
+        return getattr(x, op + "_join")(o, by)
     return call15(x, a)
 
 
@@ -100,6 +101,11 @@ def random_trace(rng, nsteps):
         if rng.random() < 0.25 and len(s.lists) >= 1:
             o = rng.randint(1, len(s.lists))
             a = {"op": rng.choice(BINARY)}
+            if a["op"] in ("semi", "anti", "inner", "left"):
+                # differently named keys whenever the other list has been renamed to carry "aa"
+                ol = s.lists[o - 1]
+                if len(ol) and all("aa" in it and "a" not in it for it in list.__iter__(ol)):
+                    a["ren"] = True
             # an argument list that is obsolete and has not yet warned would add its own warning line when
             # the callee uses it: keep the observation unambiguous by "using" it first (a logged copy)
             olist = s.lists[o - 1]
